@@ -23,6 +23,40 @@ fn esc(s: &str) -> String {
     o
 }
 
+/// canonical rendering: every token separated by one space, punctuation spacing (Joint/Alone) ignored
+fn canon(ts: &TokenStream, out: &mut String) {
+    for t in ts.clone() {
+        match t {
+            proc_macro2::TokenTree::Group(g) => {
+                let (a, b) = match g.delimiter() {
+                    proc_macro2::Delimiter::Parenthesis => ("(", ")"),
+                    proc_macro2::Delimiter::Brace => ("{", "}"),
+                    proc_macro2::Delimiter::Bracket => ("[", "]"),
+                    proc_macro2::Delimiter::None => ("", ""),
+                };
+                out.push_str(a);
+                out.push(' ');
+                canon(&g.stream(), out);
+                out.push_str(b);
+                out.push(' ');
+            }
+            proc_macro2::TokenTree::Punct(p) => {
+                out.push(p.as_char());
+                out.push(' ');
+            }
+            other => {
+                out.push_str(&other.to_string());
+                out.push(' ');
+            }
+        }
+    }
+}
+fn canon_s(ts: &TokenStream) -> String {
+    let mut s = String::new();
+    canon(ts, &mut s);
+    s
+}
+
 fn compile_error_msg(m: &syn::Macro) -> Option<String> {
     let last = m.path.segments.last()?;
     if last.ident != "compile_error" {
@@ -32,6 +66,28 @@ fn compile_error_msg(m: &syn::Macro) -> Option<String> {
         Ok(l) => Some(l.value()),
         Err(_) => Some(m.tokens.to_string()),
     }
+}
+
+/// mode `strip`: remove every attribute whose path is one of `names` from a struct/enum item (type, variants, fields)
+fn strip_attrs(names: &str, ts: TokenStream) -> Result<TokenStream, String> {
+    let names: Vec<String> = names.split(',').map(|x| x.trim().to_string()).collect();
+    let keep = |a: &syn::Attribute| !a.path().get_ident().map(|i| names.contains(&i.to_string())).unwrap_or(false);
+    let mut item: syn::Item = syn::parse2(ts).map_err(|e| format!("strip: {e}"))?;
+    match &mut item {
+        syn::Item::Struct(s) => {
+            s.attrs.retain(keep);
+            for f in s.fields.iter_mut() { f.attrs.retain(keep); }
+        }
+        syn::Item::Enum(e) => {
+            e.attrs.retain(keep);
+            for v in e.variants.iter_mut() {
+                v.attrs.retain(keep);
+                for f in v.fields.iter_mut() { f.attrs.retain(keep); }
+            }
+        }
+        _ => {}
+    }
+    Ok(item.to_token_stream())
 }
 
 fn describe_items(ts: &TokenStream) -> Option<String> {
@@ -71,6 +127,7 @@ fn describe_items(ts: &TokenStream) -> Option<String> {
             }
             _ => {}
         }
+        extra.push_str(&format!(",\"canon\":{}", esc(&canon_s(&item.to_token_stream()))));
         v.push(format!("{{\"kind\":{},\"tokens\":{}{}}}", esc(kind), esc(&tokens), extra));
     }
     Some(format!("[{}]", v.join(",")))
@@ -83,6 +140,7 @@ fn respond(out: &mut impl Write, status: &str, ts: Option<TokenStream>, note: &s
     }
     if let Some(ts) = ts {
         s.push_str(&format!(",\"out\":{}", esc(&ts.to_string())));
+        s.push_str(&format!(",\"canon\":{}", esc(&canon_s(&ts))));
         match describe_items(&ts) {
             Some(items) => s.push_str(&format!(",\"items\":{}", items)),
             None => s.push_str(",\"items\":null"),
@@ -127,6 +185,7 @@ fn main() {
                 "attr" => derive_ex::verif_hooks::expand_attr(a, b),
                 "derive" => derive_ex::verif_hooks::expand_derive(b),
                 "lex" => b,
+                "strip" => return strip_attrs(&a.to_string(), b),
                 _ => return Err("bad mode".into()),
             })
         });
